@@ -122,7 +122,21 @@ def main():
                     cr.cap("tree %s quick tier: %d single-directory permutations instead of the %d-tuple product" % (tname, len(plans), total))
                 else:
                     plans = [";".join("perm:%s=%d" % (n, c) for n, c in zip(names, tup)) for tup in itertools.product(*ranges)]
-                plans = [""] + plans          # "" = the host's natural order, no interposition
+                # '.' and '..' taking part in the permutation (the host decides where they appear): per directory, all (k+2)! orders when that is
+                # <= 5040, else every order in which exactly one element is displaced (moved forward or backward)
+                dplans = []
+                for n in names:
+                    m = dirs[n] + 2
+                    if math.factorial(m) <= 5040 and (not cr.quick or math.factorial(m) <= 720):
+                        dplans += ["permd:%s=%d" % (n, c) for c in range(1, math.factorial(m))]
+                    else:
+                        codes = set()
+                        for i in range(m - 1):
+                            for j in range(i + 1, m):
+                                codes.add((j - i) * math.factorial(m - 1 - i))                             # element j moved forward to position i
+                                codes.add(sum(math.factorial(m - 1 - t_) for t_ in range(i, j)))          # element i moved back to position j
+                        dplans += ["permd:%s=%d" % (n, c) for c in sorted(codes)]
+                plans = [""] + plans + dplans         # "" = the host's natural order, no interposition
                 res = pmap(run_one, [(wd, root, opts, packfile, p) for p in plans])
                 shas = {}
                 for plan, rc, sh, crashed, err in res:
@@ -147,7 +161,7 @@ def main():
         cr.coverage.update(evaluations=n_eval, distinct_nontrivial=len(distinct), runs=per,
                            rule="For each tree (plain; hard links across and inside directories; three directories sharing one inode) and option set (default, -k, -H, -o, "
                                 "glob lines with -nohardlinks/-name/-keeptime) gensquashfs is run once per tuple of per-directory permutations of readdir's answer (all d1! x d2! x ... "
-                                "tuples; the host's natural order is included). distinct = distinct (tree, options, permutation tuple). Oracle: one image sha256 per (tree, options).")
+                                "tuples; the host's natural order is included), and per directory with '.' and '..' taking part in the permutation: all (k+2)! orders (<= 720 quick / 5040 thorough), else every order with exactly one displaced element. distinct = distinct (tree, options, permutation tuple). Oracle: one image sha256 per (tree, options).")
         cr.assumptions += ["readdir is the only source of host order (opendir/fdopendir + readdir in dir_unix.c)"]
     return cr.finish()
 
